@@ -92,7 +92,8 @@ PROPS["C12"] = {
     "kani": lambda tier: kfam(["k_rc", "k_min_rc", "k_canon"], tier) + exts(["x_rc", "x_complement", "x_reverse"])
         + lmer(["l_rc", "l_rc_empty"], tier) + tables(["t_complement"]),
     "verus": [("dnaslice", r"^(DnaStringSlice::(rc|get|get_kmer|slice)|complement|DnaString::(get|get_kmer|slice|prefix|suffix))$")],
-    "bounded": lambda tier: [("dna_string::verif::d_rc_reverse_b_33", "DnaString::rc / reverse on a 33-base string (symbolic contents)")],
+    "bounded": lambda tier: [("dna_string::verif::d_rc_reverse_b_33", "DnaString::rc / reverse on a 33-base string (symbolic contents)"),
+                             ("dna_string::verif::d_rc_reverse_b_64", "DnaString::rc / reverse on a 64-base string (two full blocks)")],
     "design_ref": "DESIGN.md §6 C12",
     "undecided": ["DnaString::rc for every length (body uses Peekable/rev/map adapters neither verifier reaches unboundedly): bounded stand-in only"],
     "trust": VERUS_TRUST + [SEAM_NOTE],
@@ -128,7 +129,8 @@ PROPS["C14"] = {
     "design_ref": "DESIGN.md §6 C14",
     "undecided": ["extend / from_bytes / from_dna_string / rc / reverse / to_bytes / to_ascii_vec / Display (Peekable and iterator adapters): no unbounded contract; fixed-length bounded stand-ins only",
                   "PackedDnaStringSet::add (generic IntoIterator + Borrow): bounded stand-in only",
-                  "derived ==/cmp/Hash: word-level order fact complete (d_word_order); whole-string law only as a bounded stand-in (thorough)"],
+                  "derived Ord: word-level order fact complete (d_word_order); whole-string lexicographic law only as a bounded stand-in",
+                  "derived ==/Hash: lemma_eq_iff_view proves (storage, len) equal <=> views equal on wf values for all lengths; that the derived impls compare/hash exactly (storage, len) is the derive semantics (assumed; cross-checked by the bounded stand-ins)"],
     "trust": VERUS_TRUST,
     "level_text": "Data-structure contract: every DnaString operation under contract (new, with_capacity, blank, push, set_mut, get, len, is_empty, clear, push_bytes, iter/next, addr/get_by_addr/set_by_addr) is proved to preserve the representation invariant wf (exact word count, zero padding) and to transform the abstract base vector exactly as the plain-vector operation does, for all lengths (Verus, unbounded). History quantifier = induction over these per-operation contracts.",
     "level_note": "Trusted: Verus/Z3, extractor rules, vstd Vec specs. See undecided_clauses for the operations that are not under an unbounded contract.",
@@ -247,22 +249,22 @@ PROPS["C05"] = {
     "title": "K-mer counting/filtering equals reference grouping for any pass count",
     "kani": lambda tier: ["filter::verif::%s::f_bucket" % t for t in (ALL_TYPES if tier == "thorough" else QUICK_TYPES) if K_OF[t] >= 4]
         + kfam(["k_canon", "k_min_rc"], tier, 4) + exts(["x_rc", "x_add", "x_merge", "x_mk"]),
-    "verus": [("passplan", None), ("kmeriter", r"^KmerExtsIter::next$|^Vmer::iter_kmer_exts$")],
+    "verus": [("passplan", None), ("obskernel", None), ("kmeriter", r"^KmerExtsIter::next$|^Vmer::iter_kmer_exts$")],
     "bounded": lambda tier: [("filter::verif::f_count_filter", "<= 6 observations")]
         + ([("filter::verif::f_count_filter_set", "<= 3 observations, u8 labels")] if tier == "thorough" else []),
     "design_ref": "DESIGN.md §6 C05",
     "undecided": [
-        "the grouping kernel (per-bucket sort_by_key + itertools group_by + one summarize call per group + BoomHashMap2::new): iterator-adapter / third-party code neither verifier reaches, so 'each distinct k-mer summarised exactly once over exactly its observations in input order' is NOT decided",
-        "the half-open membership test `bucket >= start && bucket < end` is an expression inside that kernel; the plan lemma is stated over exactly that test but the expression itself is not extracted"],
+        "the grouping step (per-bucket sort_by_key + itertools group_by + one summarize call per group + BoomHashMap2::new): iterator-adapter / third-party code neither verifier reaches, so 'each distinct k-mer summarised exactly once over exactly its observations in input order' is decided only up to 'every observation is recorded exactly once, under its canonical key, in that key's bucket, in the one pass that owns the bucket' (obskernel + passplan); the stable sort / group_by / summarize composition is NOT decided",
+        "the two outer loops (over passes and reads) are not under contract; the payload `d.clone()` is unspecified"],
     "trust": VERUS_TRUST + [SEAM_NOTE, "R15: the pass-planning statement range of filter_kmers is verified inside a wrapper function of (kmer_mem, max_mem); max_mem > 0, kmer_mem < usize::MAX"],
-    "level_text": "Decided parts: (1) pass planning - the real statement range of filter_kmers is proved to produce between 1 and 256 non-empty consecutive bucket ranges starting at 0 whose last one reaches 256, and a lemma shows every bucket 0..255 falls in exactly one pass under the half-open test, for every memory budget (Verus, unbounded); (2) bucket() is the rank of the first four bases, < 256 and monotone in k-mer order, for all k-mer values (Kani, complete); (3) per-observation canonicalisation with extension flip (Kani, complete); (4) the k-mer-with-extensions iterator pairs each k-mer with its true flanks and uses boundary extensions only at the ends (Verus, unbounded).",
+    "level_text": "Decided parts: (1) pass planning - the real statement range of filter_kmers is proved to produce between 1 and 256 non-empty consecutive bucket ranges starting at 0 whose last one reaches 256, and a lemma shows every bucket 0..255 falls in exactly one pass under the half-open test, for every memory budget (Verus, unbounded); (2) bucket() is the rank of the first four bases, < 256 and monotone in k-mer order, for all k-mer values (Kani, complete); (3) per-observation canonicalisation with extension flip (Kani, complete) and the REAL body of the innermost observation loop of filter_kmers (rule R15, loop-body variant): each observation is pushed exactly once, under its canonical key, into bucket(key), iff that bucket belongs to the current pass, with extensions reverse-complemented exactly when the key is the opposite strand, and no other bucket is touched (Verus, unbounded); (4) the k-mer-with-extensions iterator pairs each k-mer with its true flanks and uses boundary extensions only at the ends (Verus, unbounded).",
     "level_note": "Partial claim: the grouping kernel is undecided (see undecided_clauses). Summarizers are bounded stand-ins only.",
 }
 
 PROPS["C06"] = {
     "title": "Strand symmetry when unstranded, strand separation when stranded",
     "kani": lambda tier: kfam(["k_canon", "k_min_rc", "k_rc"], tier) + exts(["x_rc", "x_complement", "x_reverse"]),
-    "verus": [("graphfn", r"^DebruijnGraph::(find_link|search_kmer)$"), ("compress", r"^CompressFromHash::try_extend_kmer$")],
+    "verus": [("graphfn", r"^DebruijnGraph::(find_link|search_kmer)$"), ("compress", r"^CompressFromHash::try_extend_kmer$"), ("obskernel", None)],
     "bounded": lambda tier: [],
     "design_ref": "DESIGN.md §6 C06",
     "undecided": ["invariance of the whole table / graph under reverse-complementing a subset of reads: a relational property of two runs through the undecided grouping kernel (C05) and the global construction (C01)"],
@@ -305,6 +307,30 @@ PAIRED_KANI = {
     "verus:nodeiter::NodeKmerIter::nth": "graph::verif::g_node_iter_seq",
     "verus:nodeiter::NodeKmerIter::next": "graph::verif::g_node_iter_seq",
     "verus:scan::Scanner::scan": "msp::verif::m_scan_p2_k3m6",
+}
+
+# bounded Kani harnesses run as counterexample finders when a Verus unit is undecided on the tree under check
+_DNA_FALLBACK = [("dna_string::verif::d_get_kmer_b_k64", "get_kmer Kmer64 on a 96-base string"),
+                 ("dna_string::verif::d_get_kmer_b_k48", "get_kmer Kmer48 on a 96-base string"),
+                 ("dna_string::verif::d_get_kmer_b_k32", "get_kmer Kmer32 on a 96-base string"),
+                 ("dna_string::verif::d_get_kmer_b_k20", "get_kmer Kmer20 on a 96-base string"),
+                 ("dna_string::verif::d_get_kmer_b_k5", "get_kmer Kmer5 on a 96-base string"),
+                 ("dna_string::verif::d_blank_b_0", "blank(0) + extend"),
+                 ("dna_string::verif::d_blank_b_32", "blank(32) + extend"),
+                 ("dna_string::verif::d_blank_b_33", "blank(33) + extend"),
+                 ("dna_string::verif::d_extend_b_0_33", "extend: empty prefix + 33 items"),
+                 ("dna_string::verif::d_extend_b_32_1", "extend: 32-base prefix + 1 item"),
+                 ("dna_string::verif::d_packed_add_b", "PackedDnaStringSet add/get")]
+_SLICE_FALLBACK = _DNA_FALLBACK + [("dna_string::verif::d_slice_hamming_1024", "hamming_dist length 1024"),
+                                   ("dna_string::verif::d_slice_render_3", "Display/Debug 3 bases")]
+UNIT_FALLBACK = {
+    "dnastring": _DNA_FALLBACK,
+    "packedset": _DNA_FALLBACK,
+    "dnaslice": _SLICE_FALLBACK,
+    "nodeiter": _SLICE_FALLBACK + [("graph::verif::g_node_iter_seq", "3 calls next()/nth(n<=9) on a 9-base node")],
+    "scan": [("msp::verif::m_scan_p2_k3m6", "P = Kmer2, k = 3, m = 6"), ("msp::verif::m_scan_p2_k2m5", "P = Kmer2, k = 2, m = 5")],
+    "graphfn": _SLICE_FALLBACK,
+    "compgraph": _SLICE_FALLBACK,
 }
 
 COMMON_TRUST = [
